@@ -48,6 +48,7 @@ Definition ident := Z.   (* symbol; the runner interns names, primitives have fi
 Inductive datum :=       (* quoted data: (quote d) *)
 | DInt (z : Z)
 | DSym (s : ident)
+| DFlt (h : Z)         (* the float literal h/2 (0.0, 0.5, -1.5 ..): floats enter only as literals *)
 | DList (ds : list datum).
 
 Inductive expr :=
@@ -92,6 +93,7 @@ Inductive value :=
 | VNil
 | VStr (s : list Z)
 | VSym (s : ident)
+| VFlt (h : Z)                                    (* the float h/2; arithmetic and comparison on floats are declined *)
 | VPair (h t : value)
 | VArr (a : nat)                                  (* address in the array store *)
 | VClos (name : option ident) (ps : list ident) (rest : option ident)
@@ -99,12 +101,12 @@ Inductive value :=
 | VPrim (p : prim).
 
 (* the types zygo.Sexp.Type() distinguishes on the values above (None = untyped) *)
-Inductive ty := TInt | TBool | TStr | TSym | TSlice | TEmpty.
+Inductive ty := TInt | TBool | TStr | TSym | TSlice | TEmpty | TFloat.
 
 (* printable snapshot of a value (arrays by content at the time of the snapshot) *)
 Inductive sval :=
 | SvInt (z : Z) | SvBool (b : bool) | SvNil | SvStr (s : list Z) | SvSym (s : ident)
-| SvPair (h t : sval) | SvArr (l : list sval) | SvFn | SvPrim (p : prim) | SvCut.
+| SvPair (h t : sval) | SvArr (l : list sval) | SvFn | SvPrim (p : prim) | SvCut | SvFlt (h : Z).
 
 (* ------------------------------------------------------------------ 3. store *)
 
@@ -221,7 +223,7 @@ Definition truthy (v : value) : bool :=        (* expressions.go:IsTruthy *)
 
 Definition ty_eqb (a b : ty) : bool :=
   match a, b with
-  | TInt, TInt | TBool, TBool | TStr, TStr | TSym, TSym | TSlice, TSlice | TEmpty, TEmpty => true
+  | TInt, TInt | TBool, TBool | TStr, TStr | TSym, TSym | TSlice, TSlice | TEmpty, TEmpty | TFloat, TFloat => true
   | _, _ => false
   end.
 
@@ -234,6 +236,7 @@ Fixpoint type_of (d : nat) (ars : list arrobj) (v : value) : option ty * list ar
   | VBool _ => (Some TBool, ars)
   | VStr _ => (Some TStr, ars)
   | VSym _ => (Some TSym, ars)
+  | VFlt _ => (Some TFloat, ars)
   | VArr a =>
     match d with
     | O => (None, ars)
@@ -306,7 +309,8 @@ Fixpoint cmp_val (d : nat) (ars : list arrobj) (a b : value) : cmpres :=
   | O => CmpUnspec
   | S d' =>
     match a with
-    | VInt x => match b with VInt y => CmpOk (zsgn (x ?= y)) | _ => CmpErr end
+    | VInt x => match b with VInt y => CmpOk (zsgn (x ?= y)) | VFlt _ => CmpUnspec | _ => CmpErr end
+    | VFlt _ => CmpUnspec                        (* numeric comparison with a float: declined *)
     | VBool x => match b with
                  | VBool y => CmpOk (if x then (if y then 0 else 1) else (if y then -1 else 0))
                  | _ => CmpErr end
@@ -357,6 +361,7 @@ Fixpoint snap (d : nat) (ars : list arrobj) (v : value) {struct d} : sval :=
        | VNil => SvNil
        | VStr s => SvStr s
        | VSym s => SvSym s
+       | VFlt h => SvFlt h
        | VPair h t => SvPair (go h) (go t)
        | VArr a => match nth_error ars a with
                    | Some o => SvArr (map (snap d' ars) (a_elems o))
@@ -371,6 +376,7 @@ Fixpoint datum_val (d : datum) : value :=
   match d with
   | DInt z => VInt z
   | DSym s => VSym s
+  | DFlt h => VFlt h
   | DList ds => fold_right (fun x acc => VPair (datum_val x) acc) VNil ds
   end.
 
@@ -518,7 +524,7 @@ Section Open.
            end) ;;
     match fv with
     | VClos _ _ _ _ _ | VPrim _ => vs <- ev_args env args ;; ap fv vs
-    | VSym _ | VArr _ => raise EUnspec
+    | VSym _ | VArr _ | VFlt _ => raise EUnspec
     | _ => match args with [] => ret fv | _ => raise EOther end
     end.
 
@@ -527,9 +533,14 @@ Section Open.
   Fixpoint arith (op : Z -> Z -> Z) (acc : value) (r : list value) : M value :=
     match r with
     | [] => ret acc
-    | b :: r' => match acc, b with
-                 | VInt x, VInt y => arith op (VInt (wrap64 (op x y))) r'
-                 | _, _ => raise EOther
+    | b :: r' => match acc with
+                 | VInt x => match b with
+                             | VInt y => arith op (VInt (wrap64 (op x y))) r'
+                             | VFlt _ => raise EUnspec      (* float arithmetic: declined *)
+                             | _ => raise EOther
+                             end
+                 | VFlt _ => raise EUnspec
+                 | _ => raise EOther
                  end
     end.
 
@@ -565,6 +576,15 @@ Section Open.
     | VNil => ret VNil
     | VPair h t => h' <- ap f [h] ;; t' <- map_pairs f t ;; ret (VPair h' t')
     | _ => raise EOther
+    end.
+
+  (* listutils.go:ConcatLists / ConcatTwoLists as the reference semantics has it: lists are values, the
+     result is the elements of all lists in order and no argument is changed; an argument that is not a
+     proper list (nil is the empty list) is an error *)
+  Fixpoint cat_lists (acc : list value) (rest : list value) : option (list value) :=
+    match rest with
+    | [] => Some acc
+    | b :: r => match val_list b with Some lb => cat_lists (acc ++ lb) r | None => None end
     end.
 
   (* arrayutils.go:ConcatArray as the reference semantics has it: the elements of the arrays, in order;
@@ -655,7 +675,7 @@ Section Open.
       end
     | PConcat =>
       (* functions.go:ConcatFunction.  A symbol argument is resolved as a variable path, strings and
-         lists have their own concatenation: declined.  arrayutils.go:ConcatArray: always a fresh array
+         lists have their own concatenation (cat_lists); strings: declined.  arrayutils.go:ConcatArray: always a fresh array
          (also when nothing is appended), without a type cache. *)
       if existsb (fun v => match v with VSym _ => true | _ => false end) args then raise EUnspec
       else match args with
@@ -663,7 +683,19 @@ Section Open.
              o <- get_arr a ;;
              els <- cat_arrs (a_elems o) rest ;;
              alloc_arr els None
-           | VStr _ :: _ | VPair _ _ :: _ => raise EUnspec
+           | VPair h t :: rest =>
+             match rest with
+             | [] => ret (VPair h t)               (* ConcatFunction: one list argument is returned as it is *)
+             | _ :: _ =>
+               match val_list (VPair h t) with
+               | Some la => match cat_lists la rest with
+                            | Some l => ret (list_val l)
+                            | None => raise EOther
+                            end
+               | None => raise EOther
+               end
+             end
+           | VStr _ :: _ => raise EUnspec
            | _ => raise EOther
            end
     | PMap =>
